@@ -762,7 +762,44 @@ impl Session {
             // the debugger's own thread list
             match dbg.thread_state() {
                 Ok(ts) => {
-                    let v: Vec<Value> = ts.iter().map(|t| json!({"tid": t.thread.pid.as_raw(), "num": t.thread.number, "in_focus": t.in_focus, "line": t.place.as_ref().map(|p| p.line_number)})).collect();
+                    let v: Vec<Value> = ts
+                        .iter()
+                        .map(|t| {
+                            // every thread's own backtrace, checked against that thread's own stack:
+                            // frame 0 is the thread's pc, every further frame's ip must be a word
+                            // of the thread's stack, at ascending addresses
+                            let mut bt_json = Value::Null;
+                            if let Some(bt) = &t.bt {
+                                let ips: Vec<u64> = bt.iter().map(|f| f.ip.as_u64()).collect();
+                                let fns: Vec<Value> = bt.iter().map(|f| json!(f.func_name)).collect();
+                                let regs = nix::sys::ptrace::getregs(t.thread.pid).ok();
+                                let mut pc_ok = Value::Null;
+                                let mut on_stack = Value::Null;
+                                if let Some(r) = regs {
+                                    pc_ok = json!(ips.first().copied() == Some(r.rip));
+                                    if let Ok(f) = std::fs::File::open(format!("/proc/{pid}/mem")) {
+                                        let mut buf = vec![0u8; 32768];
+                                        let n = f.read_at(&mut buf, r.rsp).unwrap_or(0);
+                                        let words: Vec<u64> = buf[..n - n % 8].chunks(8).map(|c| u64::from_le_bytes(c.try_into().unwrap())).collect();
+                                        let mut pos = 0usize;
+                                        let mut ok = true;
+                                        for ip in ips.iter().skip(1) {
+                                            match words[pos..].iter().position(|w| w == ip) {
+                                                Some(k) => pos += k + 1,
+                                                None => {
+                                                    ok = false;
+                                                    break;
+                                                }
+                                            }
+                                        }
+                                        on_stack = json!(ok);
+                                    }
+                                }
+                                bt_json = json!({"ips": ips, "fns": fns, "frame0_is_thread_pc": pc_ok, "return_addresses_on_own_stack": on_stack});
+                            }
+                            json!({"tid": t.thread.pid.as_raw(), "num": t.thread.number, "in_focus": t.in_focus, "line": t.place.as_ref().map(|p| p.line_number), "bt": bt_json})
+                        })
+                        .collect();
                     o.insert("threads".into(), json!(v));
                 }
                 Err(e) => {
